@@ -6,7 +6,9 @@ package main
 //   "add":   the block-addition lock (VerifAddLock): every AddBlock caller parks where it takes it, after everything it does
 //            before that point;
 //   "state": the state lock for reading (VerifRLock): the caller that is storing a block parks inside storeBlock where it
-//            takes that lock for writing, after verification and execution; the others park at the addition lock behind it —
+//            takes that lock for writing, after verification and execution; the others park at the addition lock behind it;
+//   "event": nothing is read from the block subscription, so the dispatcher halts with the first block's event and the caller
+//            that applies the next block parks where storeBlock sends its event, inside the critical section —
 // starts the callers one by one, waits until each is parked (goroutine dump, two identical observations; no sleep as
 // synchronisation) or has returned, and releases the lock.  Afterwards: every index applied exactly once (post-block
 // callbacks counted inside storeBlock, block events drained from a subscription), every result is nil / ErrAlreadyExists /
@@ -19,6 +21,7 @@ import (
 	"fmt"
 	"runtime"
 	"strings"
+	"sync"
 	"time"
 
 	"github.com/nspcc-dev/neo-go/pkg/core"
@@ -28,6 +31,7 @@ import (
 	"github.com/nspcc-dev/neo-go/pkg/core/transaction"
 	"github.com/nspcc-dev/neo-go/pkg/neotest/chain"
 	"github.com/nspcc-dev/neo-go/pkg/network/bqueue"
+	"github.com/nspcc-dev/neo-go/pkg/util"
 	"go.uber.org/zap"
 )
 
@@ -101,23 +105,61 @@ func c20cWorker(bc *core.Blockchain, via string, b *block.Block) error {
 
 var c20cBuf = make([]byte, 8<<20)
 
-// number of callers parked at one of the ledger's locks, and a fingerprint of where
-func c20cParked() (int, string) {
+// one look at all goroutines: direct callers parked at one of the ledger's locks, whether the queue's drainer is at rest
+// (parked at such a lock inside AddBlock, or waiting for work), and a fingerprint of the parked ones
+func c20cRest() (direct int, drainerAtRest bool, fp string) {
 	n := runtime.Stack(c20cBuf, true)
-	cnt := 0
-	var fp strings.Builder
+	var b strings.Builder
+	drainerSeen := false
 	for _, gr := range strings.Split(string(c20cBuf[:n]), "\n\n") {
 		hdr, body, _ := strings.Cut(gr, "\n")
-		if !strings.Contains(body, "main.c20cWorker") {
-			continue
+		first, _, _ := strings.Cut(body, "\n")
+		isDrainer := strings.Contains(body, "bqueue.(*Queue") && strings.Contains(body, ".Run(")
+		if isDrainer {
+			drainerSeen = true
 		}
-		if strings.Contains(hdr, "[sync.Mutex.Lock") || strings.Contains(hdr, "[sync.RWMutex.Lock") {
-			cnt++
-			first, _, _ := strings.Cut(body, "\n")
-			fp.WriteString(hdr[strings.Index(hdr, "["):] + first + ";")
+		atLock := strings.Contains(hdr, "[sync.Mutex.Lock") || strings.Contains(hdr, "[sync.RWMutex.Lock") || strings.Contains(hdr, "[sync.RWMutex.RLock") ||
+			(strings.Contains(hdr, "[chan send") && strings.Contains(first, "storeBlock"))
+		switch {
+		case strings.Contains(body, "main.c20cWorker") && atLock:
+			if isDrainer {
+				drainerAtRest = true
+			} else {
+				direct++
+			}
+			b.WriteString(hdr[strings.Index(hdr, "["):] + first + ";")
+		case isDrainer && strings.Contains(hdr, "[chan receive") && strings.Contains(first, "bqueue.(*Queue") && strings.Contains(first, ".Run("):
+			drainerAtRest = true
+			b.WriteString("idle;")
 		}
 	}
-	return cnt, fp.String()
+	if !drainerSeen { // not started yet (shows as a wrapper until it runs)
+		drainerAtRest = false
+	}
+	return direct, drainerAtRest, b.String()
+}
+
+// c20cSettle waits until every direct caller that has not returned is parked at a lock and the drainer is at rest, seen twice
+// in the same places (idle: nobody is inside the ledger any more and the drainer waits for work).  No sleeping: the
+// goroutine yields between the looks.
+func c20cSettle(unreturned func() int, deadline time.Time, idle bool) (int, error) {
+	last := "-"
+	for {
+		want := unreturned()
+		n, rest, fp := c20cRest()
+		if n == want && rest && want == unreturned() && (!idle || fp == "idle;") {
+			if fp == last {
+				return n, nil
+			}
+			last = fp
+		} else {
+			last = "-"
+		}
+		if time.Now().After(deadline) {
+			return n, fmt.Errorf("callers do not come to rest (%d parked, %d expected, drainer at rest %v)", n, want, rest)
+		}
+		runtime.Gosched()
+	}
 }
 
 func c20RunConcCase(co *caseOut, raw json.RawMessage) error {
@@ -129,20 +171,48 @@ func c20RunConcCase(co *caseOut, raw json.RawMessage) error {
 	tb := &c20TB{}
 	defer tb.done()
 	bc, _ := chain.NewSingleWithOptions(tb, &chain.Options{Logger: c20Logger(), BlockchainConfigHook: c20Cfg, Store: storage.NewMemoryStore()})
-	var applied []uint32
+	var amu sync.Mutex
+	var appliedLog []uint32
 	bc.RegisterPostBlock(func(_ func(*transaction.Transaction, *mempool.Pool, bool) bool, _ *mempool.Pool, b *block.Block) {
-		applied = append(applied, b.Index) // inside storeBlock, under the ledger's lock
+		amu.Lock()
+		appliedLog = append(appliedLog, b.Index) // inside storeBlock, under the ledger's state lock
+		amu.Unlock()
 	})
-	events := make(chan *block.Block, 256)
+	appliedNow := func() []uint32 { amu.Lock(); defer amu.Unlock(); return append([]uint32{}, appliedLog...) }
+	// block events: an unbuffered subscription read by a pump that the harness can pause, so that the dispatcher — and with it
+	// the next caller's event send inside storeBlock — comes to a halt (hold "event")
+	events := make(chan *block.Block)
+	evq := make(chan *block.Block, 1024)
+	pause := make(chan chan struct{})
+	pumpStop := make(chan struct{})
+	pumpDone := make(chan struct{})
+	go func() {
+		defer close(pumpDone)
+		for {
+			select {
+			case resume := <-pause:
+				<-resume
+			case b := <-events:
+				evq <- b
+			case <-pumpStop:
+				return
+			}
+		}
+	}()
 	bc.SubscribeForBlocks(events)
+	defer func() { bc.UnsubscribeFromBlocks(events); close(pumpStop); <-pumpDone }()
 	qres := make(chan c20cRes, 64)
 	q := bqueue.New[*block.Block](c20cAdapter{bc, qres}, zap.NewNop(), nil, 16, nil, bqueue.NonBlocking)
-	go q.Run()
-	defer q.Discard()
+	qdone := make(chan struct{})
+	go func() { q.Run(); close(qdone) }()
+	defer func() { q.Discard(); <-qdone }()
 	var outs []c20cStepOut
 	var viol []string
-	violate := func(f string, a ...any) { viol = append(viol, fmt.Sprintf(f, a...)) }
-	nEvents := 0
+	violate := func(f string, a ...any) {
+		if len(viol) == 0 { // the first thing that is wrong in a case; what follows from it is in the output
+			viol = append(viol, fmt.Sprintf(f, a...))
+		}
+	}
 	var evIdx []uint32
 	for _, st := range in.Ops {
 		h := bc.BlockHeight()
@@ -150,16 +220,33 @@ func c20RunConcCase(co *caseOut, raw json.RawMessage) error {
 			break
 		}
 		out := c20cStepOut{Height: h}
-		before := len(applied)
+		before := len(appliedNow())
+		var resume chan struct{}
 		switch st.Hold {
 		case "add":
 			bc.VerifAddLock()
 		case "state":
 			bc.VerifRLock()
+		case "event":
+			resume = make(chan struct{})
+			pause <- resume
 		}
 		res := make(chan c20cRes, len(st.Calls))
-		pending := 0
-		deadline := time.Now().Add(60 * time.Second)
+		started, returned := 0, 0
+		var got []c20cRes
+		unreturned := func() int {
+			for {
+				select {
+				case r := <-res:
+					got = append(got, r)
+					returned++
+					continue
+				default:
+				}
+				return started - returned
+			}
+		}
+		deadline := time.Now().Add(90 * time.Second)
 		for _, c := range st.Calls {
 			idx := int64(h) + 1 + int64(c.D)
 			if idx < 1 || idx > int64(src.height) {
@@ -167,11 +254,11 @@ func c20RunConcCase(co *caseOut, raw json.RawMessage) error {
 			}
 			b := src.block(uint32(idx))
 			cp := *b // every producer hands over its own copy, as the network layer does
-			pending++
 			switch c.Via {
 			case "queue":
 				_ = q.Put(&cp)
 			default:
+				started++
 				go func(via string, b *block.Block) {
 					res <- c20cRes{Via: via, Idx: b.Index, Err: c20cErr(c20cWorker(bc, via, b))}
 				}(c.Via, &cp)
@@ -179,46 +266,55 @@ func c20RunConcCase(co *caseOut, raw json.RawMessage) error {
 			if st.Hold == "none" {
 				continue
 			}
-			// wait until the call has returned or its goroutine is parked at a lock (stable over two observations)
-			want := pending - len(res) - len(qres)
-			last := ""
-			for {
-				want = pending - len(res) - len(qres)
-				n, fp := c20cParked()
-				if n == want && fp == last {
-					break
-				}
-				last = fp
-				if n != want {
-					last = ""
-				}
-				if time.Now().After(deadline) {
-					return fmt.Errorf("concurrent ledger case %s: callers do not come to rest (%d parked, %d expected)", string(raw), n, want)
-				}
-				runtime.Gosched()
+			n, err := c20cSettle(unreturned, deadline, false)
+			if err != nil {
+				return fmt.Errorf("concurrent ledger case %s: %v", string(raw), err)
 			}
+			_, dr, fp := c20cRest()
+			if dr && !strings.Contains(fp, "idle;") {
+				n++
+			}
+			out.Parked = max(out.Parked, n)
 		}
-		out.Parked, _ = c20cParked()
 		switch st.Hold {
 		case "add":
 			bc.VerifAddUnlock()
 		case "state":
 			bc.VerifRUnlock()
+		case "event":
+			// the event is part of the critical section: with the dispatcher halted, one block's event is with the
+			// dispatcher, the next block's sender waits for the dispatcher INSIDE the section, nobody else gets in
+			if k := len(appliedNow()) - before; k > 2 {
+				violate("concurrent producers: further blocks are applied while an earlier block's event is still being sent (the event is sent outside the block-addition critical section): %d applied, dispatcher halted after the first", k)
+			}
+			close(resume)
 		}
-		for i := 0; i < pending; i++ {
+		for started > returned {
 			select {
 			case r := <-res:
-				out.Results = append(out.Results, r)
-			case r := <-qres:
-				out.Results = append(out.Results, r)
+				got = append(got, r)
+				returned++
 			case <-time.After(120 * time.Second):
 				return fmt.Errorf("concurrent ledger case %s: a caller does not return", string(raw))
 			}
 		}
-		// a block the queue's drainer found stale is dropped without an AddItem call: nothing to wait for beyond the results
-		out.Applied = append([]uint32{}, applied[before:]...)
+		if _, err := c20cSettle(func() int { return 0 }, time.Now().Add(120*time.Second), true); err != nil { // the drainer has nothing left to do
+			return fmt.Errorf("concurrent ledger case %s: %v", string(raw), err)
+		}
+		out.Results = got
+	drainq:
+		for {
+			select {
+			case r := <-qres:
+				out.Results = append(out.Results, r)
+			default:
+				break drainq
+			}
+		}
+		all := appliedNow()
+		out.Applied = all[before:]
 		outs = append(outs, out)
-		// each index applied at most once, in order; exactly one nil per applied index; only benign errors
+		// only benign errors; each index applied at most once, in index order; exactly one nil per applied index
 		nils := map[uint32]int{}
 		for _, r := range out.Results {
 			switch {
@@ -229,42 +325,43 @@ func c20RunConcCase(co *caseOut, raw json.RawMessage) error {
 				violate("concurrent producers: a call returns an error that is neither 'already exists' nor 'invalid index': %s block %d: %s", r.Via, r.Idx, r.Err)
 			}
 		}
+		cnt := map[uint32]int{}
 		for i, x := range out.Applied {
+			cnt[x]++
 			if x != h+1+uint32(i) {
-				violate("concurrent producers: blocks applied %v on top of height %d (every block at most once, in index order)", out.Applied, h)
+				violate("concurrent producers: a block is applied more than once or out of order: post-block callbacks for %v on top of height %d", out.Applied, h)
+			}
+		}
+		for x, k := range nils {
+			if cnt[x] != k {
+				violate("concurrent producers: callers told 'added' and applications differ: block %d: %d caller(s) got nil, applied %d time(s)", x, k, cnt[x])
+			}
+		}
+		for x, k := range cnt {
+			if nils[x] != k {
+				violate("concurrent producers: callers told 'added' and applications differ: block %d: %d caller(s) got nil, applied %d time(s)", x, nils[x], k)
+			}
+		}
+		if bc.BlockHeight() != h+uint32(len(out.Applied)) {
+			violate("concurrent producers: height and applications differ: height %d after %d applications on top of %d", bc.BlockHeight(), len(out.Applied), h)
+		}
+		// block events: one per applied block, the same blocks in the same order
+		for len(evIdx) < len(all) {
+			select {
+			case b := <-evq:
+				evIdx = append(evIdx, b.Index)
+			case <-time.After(60 * time.Second):
+				violate("concurrent producers: block event for an applied block never arrives")
+				evIdx = append(evIdx, 0)
+			}
+		}
+		for i, x := range evIdx {
+			if x != all[i] {
+				violate("concurrent producers: block events and applied blocks differ: events %v, applied %v", evIdx, all)
 				break
 			}
 		}
-		for _, x := range out.Applied {
-			if nils[x] != 1 {
-				violate("concurrent producers: block %d was applied once and %d callers were told it was added by them", x, nils[x])
-			}
-			delete(nils, x)
-		}
-		for x, k := range nils {
-			violate("concurrent producers: %d caller(s) got nil for block %d, which was applied %d times in this step", k, x, 0)
-		}
-		if bc.BlockHeight() != h+uint32(len(out.Applied)) {
-			violate("concurrent producers: height %d after %d applications on top of %d", bc.BlockHeight(), len(out.Applied), h)
-		}
-		// block events: one per applied block, in order
-		for nEvents < len(applied) {
-			select {
-			case b := <-events:
-				evIdx = append(evIdx, b.Index)
-				nEvents++
-			case <-time.After(60 * time.Second):
-				violate("concurrent producers: block event for an applied block never arrives")
-				nEvents = len(applied)
-			}
-		}
 		if len(viol) > 0 {
-			break
-		}
-	}
-	for i, x := range evIdx {
-		if i < len(applied) && x != applied[i] {
-			violate("block events %v do not match the applied blocks %v", evIdx, applied)
 			break
 		}
 	}
@@ -276,12 +373,24 @@ func c20RunConcCase(co *caseOut, raw json.RawMessage) error {
 		}
 	}
 	if len(viol) == 0 {
+		// the rest of the chain one block after the other, then everything the contracts store — GAS balances and supply
+		// among it — against the reference node
+		for i := bc.BlockHeight() + 1; i <= src.height; i++ {
+			cp := *src.block(i)
+			if err := bc.AddBlock(&cp); err != nil {
+				violate("concurrent producers: afterwards block %d is not accepted: %v", i, err)
+				break
+			}
+			<-evq
+		}
 		acc := src.e.Validator.ScriptHash()
-		if a, b := bc.GetUtilityTokenBalance(acc), src.bc.GetUtilityTokenBalance(acc); bc.BlockHeight() == src.bc.BlockHeight() && a.Cmp(b) != 0 {
-			violate("concurrent producers: validator GAS balance %s, reference node %s", a, b)
+		if a, b := bc.GetUtilityTokenBalance(acc, util.Uint160{}), src.bc.GetUtilityTokenBalance(acc, util.Uint160{}); len(viol) == 0 && a.Cmp(b) != 0 {
+			violate("concurrent producers: validator GAS balance differs from the reference node's: %s, reference %s", a, b)
+		}
+		if ok, why := c20KVEqual(c20Dump(src.bc), c20Dump(bc)); len(viol) == 0 && !ok {
+			violate("concurrent producers: contract storage differs from the reference node's at the top: %s", why)
 		}
 	}
-	bc.UnsubscribeFromBlocks(events)
 	for _, v := range viol {
 		co.violation("conc", v, in, outs)
 	}
@@ -300,7 +409,7 @@ func c20RunConcCase(co *caseOut, raw json.RawMessage) error {
 		for _, x := range o.Applied {
 			ap = append(ap, fmt.Sprint(x))
 		}
-		hold := map[string]int{"none": 0, "add": 1, "state": 2}[in.Ops[i].Hold]
+		hold := map[string]int{"none": 0, "add": 1, "state": 2, "event": 3}[in.Ops[i].Hold]
 		steps = append(steps, fmt.Sprintf("(%d,%d,%s,%s)", hold, o.Height, coqList(rs), coqList(ap)))
 		maxParked = max(maxParked, o.Parked)
 	}
@@ -311,9 +420,9 @@ func c20RunConcCase(co *caseOut, raw json.RawMessage) error {
 func init() { register("c20conc", runC20Conc) }
 
 const c20ConcRule = "conc: the real ledger fed with the source chain's blocks by 2-3 concurrent callers per step (AddBlock, AddHeaders, the real block " +
-	"queue's drainer), the ledger's addition lock or state lock held by the harness while the callers are started one by one and park: same block " +
+	"queue's drainer), the ledger's addition lock or state lock held by the harness (or the event dispatcher halted) while the callers are started one by one and park: same block " +
 	"twice/thrice, next and next-but-one reversed, direct call while the queue drains the same block, block and its header in both orders, stale tip " +
-	"beside the next block; non-trivial when at least two callers were parked at a lock at the same time"
+	"beside the next block, the next two or three blocks from different callers; non-trivial when at least two callers were parked at a lock at the same time"
 
 func c20GenConc(r *rng, src c20SrcParams) c20cInput {
 	in := c20cInput{Src: src}
@@ -328,9 +437,12 @@ func c20GenConc(r *rng, src c20SrcParams) c20cInput {
 		{{"blk", -1}, {"blk", 0}},
 		{{"blk", 0}, {"blk", -1}, {"blk", 1}},
 		{{"queue", 0}, {"queue", 1}, {"blk", 0}},
+		{{"blk", 0}, {"blk", 1}},
+		{{"blk", 0}, {"blk", 1}, {"blk", 2}},
+		{{"blk", 0}, {"queue", 1}, {"blk", 2}},
 	}
 	for i := 0; i < src.Height-2; i++ {
-		st := c20cStep{Hold: pick(r, []string{"add", "add", "state", "state", "none"}), Calls: append([]c20cCall{}, pick(r, shapes)...)}
+		st := c20cStep{Hold: pick(r, []string{"add", "add", "state", "state", "event", "none"}), Calls: append([]c20cCall{}, pick(r, shapes)...)}
 		in.Ops = append(in.Ops, st)
 	}
 	return in
